@@ -1204,6 +1204,43 @@ fn b_vector_source(rng: &mut Rng, ctx: &Ctx) -> Built {
     }
 }
 
+fn b_null_sink(rng: &mut Rng, ctx: &Ctx) -> Built {
+    let n = gen_len(rng, ctx, 4);
+    let data = gen_f32(rng, n);
+    let (inp, r) = tagged_in(rng, ctx, data);
+    let b = NullSink::new(r);
+    Built { dut: dut1("NullSink<f32>", json!({}), b, inp, vec![]), spec: None, tagspec: None, spec_ulps: 0 }
+}
+fn b_vector_sink(rng: &mut Rng, ctx: &Ctx) -> Built {
+    let n = gen_len(rng, ctx, 4);
+    let data = gen_f32(rng, n);
+    let max = *rng.pick(&[0usize, 1, 100, 5000, 1_000_000]);
+    let (inp, r) = tagged_in(rng, ctx, data);
+    let b = VectorSink::new(r, max);
+    Built { dut: dut1("VectorSink<f32>", json!({"max_size": max}), b, inp, vec![]), spec: None, tagspec: None, spec_ulps: 0 }
+}
+fn b_constant_source(rng: &mut Rng, _ctx: &Ctx) -> Built {
+    let v = rng.next() as u32;
+    let (b, o) = ConstantSource::new(v);
+    Built {
+        dut: Dut { name: "ConstantSource<u32>".into(), params: json!({"val": v}), block: Box::new(b), ins: vec![], outs: vec![Box::new(CopyOut::new(o))], keeps_history: 0, cleanup: None },
+        spec: None,
+        tagspec: None,
+        spec_ulps: 0,
+    }
+}
+fn b_signal_source(rng: &mut Rng, _ctx: &Ctx) -> Built {
+    let f = 100.0 + rng.f32_unit().abs() * 4000.0;
+    let dut = if rng.chance(1, 2) {
+        let (b, o) = SignalSourceFloat::new(44100.0, f, 0.5);
+        Dut { name: "SignalSourceFloat".into(), params: json!({"freq": f}), block: Box::new(b), ins: vec![], outs: vec![Box::new(CopyOut::new(o))], keeps_history: 0, cleanup: None }
+    } else {
+        let (b, o) = SignalSourceComplex::new(44100.0, f, 0.5);
+        Dut { name: "SignalSourceComplex".into(), params: json!({"freq": f}), block: Box::new(b), ins: vec![], outs: vec![Box::new(CopyOut::new(o))], keeps_history: 0, cleanup: None }
+    };
+    Built { dut, spec: None, tagspec: None, spec_ulps: 0 }
+}
+
 pub const ENTRIES: &[Entry] = &[
     Entry { name: "AddConst<f32>", build: b_add_const_f32, min_stream: 4096 },
     Entry { name: "add_const<Complex>", build: b_add_const_fn, min_stream: 4096 },
@@ -1247,6 +1284,10 @@ pub const ENTRIES: &[Entry] = &[
     Entry { name: "Midpointer", build: b_midpointer, min_stream: 4096 },
     Entry { name: "Wpcr", build: b_wpcr, min_stream: 4096 },
     Entry { name: "VectorSource<u32>", build: b_vector_source, min_stream: 4096 },
+    Entry { name: "NullSink<f32>", build: b_null_sink, min_stream: 4096 },
+    Entry { name: "VectorSink<f32>", build: b_vector_sink, min_stream: 4096 },
+    Entry { name: "ConstantSource<u32>", build: b_constant_source, min_stream: 4096 },
+    Entry { name: "SignalSource", build: b_signal_source, min_stream: 4096 },
 ];
 
 pub fn entry(name: &str) -> Option<&'static Entry> {
